@@ -73,6 +73,9 @@ def case(draw):
         c["pos"] = draw(st.integers(0, len(c["cands"]) - 2))
     elif kind == "non_integer_weight_veto":
         c["delta"] = draw(st.sampled_from(["1/1000000", "1/2", "1/3"]))
+        # twin: a second ballot with the same ranking carries the complementary fraction, so the two
+        # offending ballots would add up to a whole number if they were merged
+        c["twin"] = draw(st.booleans())
     elif kind == "non_integer_weight_random_transfer":
         c["delta"] = draw(st.sampled_from(["1/1000000", "1/2", "1/3"]))
         c["n_led"] = draw(st.integers(1, 4))
@@ -229,8 +232,13 @@ def check(case):
         run_accept(out, kind, "PluralityVeto", C.mk_profile(small, cands), cfg, rng, "integer weights")
         bad = [dict(b) for b in small]
         bad[i]["w"] = C.enc(C.frac(small[i]["w"]) + C.frac(case["delta"]))
-        run_expect(out, kind, "PluralityVeto", C.mk_profile(bad, cands), cfg, rng, "TypeError", f"ballot {i} weight {bad[i]['w']}")
-        nt = i > 0 or case["delta"] == "1/1000000"
+        what = f"ballot {i} weight {bad[i]['w']}"
+        if case.get("twin"):
+            twin = dict(bad[i], w=C.enc(1 - C.frac(case["delta"])))
+            bad.insert((i * 7 + 3) % (len(bad) + 1), twin)
+            what += f" and a ballot with the same ranking of weight {twin['w']}"
+        run_expect(out, kind, "PluralityVeto", C.mk_profile(bad, cands), cfg, rng, "TypeError", what)
+        nt = i > 0 or case["delta"] == "1/1000000" or bool(case.get("twin"))
     elif kind == "non_integer_weight_random_transfer":
         i = case["index"]
         led = [{"r": [["W"], [["A"], ["B"]][j % 2]], "w": 2 + j} for j in range(case["n_led"])]
